@@ -115,12 +115,16 @@ def bnfuse_case(rnd, events):
   usebias = rnd.random() < 0.6
   center, scale = rnd.random() < 0.8, rnd.random() < 0.8
   wide = "quantized_bits(16,7,1,alpha=1.0)"
+  # half of the cases: a bias quantizer that really rounds (step 2^EB) and a float bias off its grid - the exported
+  # fused bias has to be the batch-norm algebra on the QUANTIZED bias
+  lossy = usebias and rnd.random() < 0.5
+  bq = "quantized_bits(5,2,1,alpha=1.0)" if lossy else wide
   i = L.Input((4, 4, 2))
   nch = 2 if dw else 3
   if dw:
-    conv = QDepthwiseConv2D((2, 2), depthwise_quantizer=wide, bias_quantizer=wide, use_bias=usebias, name="conv")
+    conv = QDepthwiseConv2D((2, 2), depthwise_quantizer=wide, bias_quantizer=bq, use_bias=usebias, name="conv")
   else:
-    conv = QConv2D(3, (2, 2), kernel_quantizer=wide, bias_quantizer=wide, use_bias=usebias, name="conv")
+    conv = QConv2D(3, (2, 2), kernel_quantizer=wide, bias_quantizer=bq, use_bias=usebias, name="conv")
   bn = QBatchNormalization(epsilon=EPS, center=center, scale=scale, gamma_quantizer=wide, beta_quantizer=wide,
                            mean_quantizer=wide, variance_quantizer=None, name="bn")
   m = tf.keras.Model(i, bn(conv(i)))
@@ -133,7 +137,7 @@ def bnfuse_case(rnd, events):
   ws = conv.get_weights()
   ws[0] = rints(rnd, ws[0].shape, -6, 6, EK)
   if usebias:
-    ws[1] = b
+    ws[1] = (b + np.float32(2.0 ** (EB - 2))) if lossy else b         # a quarter step off the grid: rounds back to b
   conv.set_weights(ws)
   d = qutils.model_save_quantized_weights(m)
   ent = d["conv"]
@@ -141,7 +145,7 @@ def bnfuse_case(rnd, events):
     events.append({"kind": "bnfuse", "gam": [1], "J": [0], "b": [0], "mean": [0], "beta": [0], "inv": [999], "fb": [0],
                    "note": "pair not detected"})
     return
-  events.append({"kind": "bnfuse", "dw": int(dw), "usebias": int(usebias), "center": int(center), "scale": int(scale),
+  events.append({"kind": "bnfuse", "dw": int(dw), "usebias": int(usebias), "lossy": int(lossy), "center": int(center), "scale": int(scale),
                  "gam": ints(gam, EG), "J": [int(v) for v in J], "b": ints(b, EB), "mean": ints(mean, EB),
                  "beta": ints(beta, EFB), "inv": ints(np.broadcast_to(ent["bn_inv"], (nch,)), EG - 2),
                  "fb": ints(np.broadcast_to(ent["fused_bias"], (nch,)), EFB)})
@@ -162,7 +166,7 @@ def main():
       export_case(cls, variant, events, errors, freeze)
     except Exception as e:
       errors.append({"k": "exc", "cls": cls, "variant": variant, "freeze": freeze, "exc": repr(e)[:300]})
-  for _ in range(4 if tier == "quick" else 40):
+  for _ in range(6 if tier == "quick" else 40):
     try:
       bnfuse_case(rnd, events)
     except Exception as e:
@@ -170,7 +174,7 @@ def main():
   for ev in events:
     for k, v in (("w1", [[0, 0]]), ("qw", [[0, 0]]), ("hw", [[0, 0]]), ("sg", [[1, 0]]), ("sc", [[1, 0]]), ("qkind", "other"),
                  ("bits", 0), ("kn", 1), ("sgbad", 0), ("int", 0), ("qs", [[1, 0]]), ("indep", 0), ("frozen", 0), ("pred", 1), ("second", 1), ("gam", [0]), ("J", [0]),
-                 ("b", [0]), ("mean", [0]), ("beta", [0]), ("inv", [0]), ("fb", [0])):
+                 ("lossy", 0), ("b", [0]), ("mean", [0]), ("beta", [0]), ("inv", [0]), ("fb", [0])):
       ev.setdefault(k, v)
   write_ndjson("%s.%d.ndjson" % (prefix, shard), events)
   json.dump(errors, open("%s.%d.err.json" % (prefix, shard), "w"))
